@@ -22,3 +22,5 @@ def run(ctx, rep):
     from ..rules import more5
     more5.rule_sched_busy(mod, rep)
     more5.rule_supno_done(mod, rep)
+    from ..rules import lock as _lock
+    _lock.rule_L2_guarded_by(mod, rep, ctx.config)   # supernode numbers and the U/L storage cursors define the returned structures: every access is inside its critical section
